@@ -108,7 +108,7 @@ func panicSig(prefix string, p any) string {
 	s := fmt.Sprint(p)
 	switch {
 	case strings.Contains(s, "sub-millisecond"):
-		return prefix + "-panics:time-sub-millisecond"
+		return "readtime-panics-on-sub-millisecond" // one root cause whatever the entry point
 	case strings.Contains(s, "index out of range"):
 		return prefix + "-panics:index-out-of-range"
 	case strings.Contains(s, "makeslice") || strings.Contains(s, "out of memory"):
@@ -741,7 +741,7 @@ func fuzzLeg(f *testing.F, name string) {
 		c := DecodeCase{Target: target, Data: data}
 		m := &miniCtx{}
 		runDecode(c, m)
-		h.NewPlain(t, "C18", leg).Case(nil, func(x *h.Ctx) {
+		h.NewPlain(t, "C18", leg).Case(c, func(x *h.Ctx) {
 			for _, l := range m.labels {
 				if !strings.HasPrefix(l, "target:") {
 					x.Label(l)
